@@ -2,6 +2,7 @@ package gen
 
 import (
 	"fmt"
+	"strconv"
 	"strings"
 	"unicode/utf8"
 )
@@ -215,6 +216,20 @@ func TemplateText(parts []TmplPart) string {
 			// Succeeds for a 10-digit unix timestamp, fails for anything else: the failure
 			// depends on the record and comes after earlier parts were already written.
 			sb.WriteString("{{ (unixToTime ." + t.A + ").Unix }}")
+		case "ts_millis":
+			sb.WriteString("{{ __timestamp__ | unixEpochMillis }}")
+		case "alignLeft", "alignRight":
+			sb.WriteString("{{ " + t.Kind + " " + strconv.Itoa(t.N) + " ." + t.A + " }}")
+		case "replace":
+			sb.WriteString("{{ ." + t.A + " | replace " + Quote(t.Text) + " " + Quote(t.Text2) + " }}")
+		case "trimPrefix", "trimSuffix":
+			sb.WriteString("{{ " + t.Kind + " " + Quote(t.Text) + " ." + t.A + " }}")
+		case "b64enc":
+			sb.WriteString("{{ ." + t.A + " | b64enc }}")
+		case "if_contains":
+			sb.WriteString("{{ if contains " + Quote(t.Text) + " ." + t.A + " }}Y{{ else }}N{{ end }}")
+		case "regex_wrap":
+			sb.WriteString("{{ regexReplaceAll \"([a-z0-9])\" ." + t.A + " \"<$1>\" }}")
 		case "fail_unixToTime":
 			sb.WriteString("{{ unixToTime ." + t.A + " }}")
 		case "fail_regex":
